@@ -1,10 +1,11 @@
 """Sidecar contracts (DESIGN.md Appendix A). One module per repository module."""
 def install_all(reg):
-    from pyvc import sdmodel, pnmodel, strmodel, vsmodel
+    from pyvc import sdmodel, pnmodel, strmodel, vsmodel, itermodel
     strmodel.install(reg)
     sdmodel.install(reg)
     pnmodel.install(reg)
     vsmodel.install(reg)
+    itermodel.install(reg)
     from . import space_utils, deps, succession_diagram, algorithms, petri_net, trappist
     space_utils.install(reg)
     deps.install(reg)
@@ -25,6 +26,8 @@ def install_all(reg):
     candidates.install_helpers2(reg)
     from . import symbolic
     symbolic.install(reg)
+    from . import control
+    control.install(reg)
     algorithms.install(reg)
     algorithms.install_skipnode(reg)
     algorithms.install_target(reg)
